@@ -36,6 +36,22 @@ def sections_of(text):
     return out
 
 
+def doc_usages(kind, text):
+    """the usage lines of a generated document, markup and blanks removed, percent-encoded like the definitions"""
+    import re, html
+    from checks.c16 import pe
+    out = []
+    if kind == "markdown":
+        for m in re.finditer(r"^\*\*Usage\*\*:(.*)$", text, re.M):
+            t = re.sub(r"\\(.)", r"\1", m.group(1).replace("**", "").replace("_`", "").replace("`_", "").replace("`", ""))
+            out.append(pe("Usage:" + "".join(t.split())))
+    else:
+        for m in re.finditer(r"<b>Usage</b>:(.*?)</p>", text, re.S):
+            t = html.unescape(re.sub(r"<[^>]*>", "", m.group(1)))
+            out.append(pe("Usage:" + "".join(t.split())))
+    return out
+
+
 def fill_metavars(x):
     """the default metavariable of the builder, spelled out for the specification"""
     if isinstance(x, dict):
@@ -73,6 +89,8 @@ def judge_render(v, pid, hbin, fam, tag, docs=False, spec_fam=None, usage=False)
             if usage and x["kind"] == "help" and x.get("class") == "stdout":
                 rec["usage"] = usage_of(x.get("text", ""))
                 rec["sections"] = sections_of(x.get("text", ""))
+            if usage and x["kind"] in ("markdown", "html") and x.get("text"):
+                rec["usages"] = doc_usages(x["kind"], x["text"])
             w.write(json.dumps(rec) + "\n")
     t = run_tlc("HelpModel", "HelpModel.cfg", env={"TRACE": slim, "DEFS": spath}, workers=1,
                 extra_java="-Xss1g -Dtlc2.tool.queue.IStateQueue=StateDeque", timeout=3000)
@@ -86,7 +104,7 @@ def judge_render(v, pid, hbin, fam, tag, docs=False, spec_fam=None, usage=False)
             sig = {"rule": "listing", "kind": rec["kind"],
                    "missing": sorted({classify(x) for x in prob["missing"]}), "forbidden": sorted({classify(x) for x in prob["forbidden"]}),
                    "foreign": sorted({classify(x) for x in prob["foreign"]}), "order_ok": prob["order"],
-                   "usage_ok": not prob.get("usage"), "misplaced": sorted({classify(x[0]) + ">" + x[1].split("-")[0] for x in prob.get("misplaced", [])})}
+                   "usage_ok": not prob.get("usage"), "doc_usage_ok": not prob.get("docusage"), "misplaced": sorted({classify(x[0]) + ">" + x[1].split("-")[0] for x in prob.get("misplaced", [])})}
             if prob.get("usage"):
                 prob["usage_observed"] = usage_of(rec.get("text", ""))
             v.report(sig, {"def": rec["def"], "path": rec["path"], "kind": rec["kind"], "problems": prob, "text": rec.get("text", "")[:4000]})
@@ -127,10 +145,14 @@ def run(v):
         D.catch_family(SEED + 125, 6 if q else 18)
     D.api_variants(fam, SEED + 126)
     recs, t = judge_render(v, "C12", hbin, fam, "h", usage=True)
+    # the documentation generated for a sample of the same definitions repeats the usage line of every level
+    import copy
+    dfam = [d for d in copy.deepcopy(fam[:120 if q else 1500]) if "_" not in json.dumps(d.get("metavar", ""))]
+    drecs, dt = judge_render(v, "C12", hbin, dfam, "hd", docs=True, usage=True)
     levels = len(recs)
     samples = [{"def": r["def"], "path": r["path"], "items": r["items"][:12]} for r in recs[5:8]]
     cov = {"states": t["distinct"], "transitions": t["states"], "traces_validated_against_impl": levels, "samples": samples,
-           "definitions": len(fam), "command_levels": levels, "distinct_nontrivial": levels, "exhaustive": False,
+           "definitions": len(fam), "documents_with_usage_lines": len([r for r in drecs if r["kind"] in ("markdown", "html")]), "command_levels": levels, "distinct_nontrivial": levels, "exhaustive": False,
            "rule": "generated definitions (all item kinds/arities, aliases, hidden items, hide_usage/custom_usage, group_help, "
                    "choices, adjacent groups, command trees of depth <= 3, level descriptions/headers/footers); help of every "
                    "reachable command level tokenised and compared by TLC with Listing computed from the definition "
